@@ -1486,6 +1486,31 @@ func (b *Base) Return(x *Exec, ret *ast.ReturnStmt, s St) []St {
 }
 
 func (b *Base) return1(x *Exec, ret *ast.ReturnStmt, s St) []St {
+	// return f(args): the call is interpreted like `r0, r1 = f(args); return r0, r1`, so that the
+	// hooks (and the err/nil fork) see calls in return position too
+	if ret != nil && len(ret.Results) == 1 && b.H.Call != nil && x.RetCall == nil {
+		if call, ok := ast.Unparen(ret.Results[0]).(*ast.CallExpr); ok {
+			rts := resultTerms(x.Fn)
+			if tv, ok := x.Fn.Info.Types[call.Fun]; ok && !tv.IsType() && len(rts) >= 1 {
+				if sig, ok := x.Fn.Info.TypeOf(call.Fun).Underlying().(*types.Signature); ok && sig.Results().Len() == len(rts) {
+					x.RetCall = rts
+					outs, handled := b.H.Call(x, call, nil, s)
+					x.RetCall = nil
+					if handled {
+						var res []St
+						for _, o := range outs {
+							if b.H.Return != nil {
+								res = append(res, b.H.Return(x, ret, o)...)
+							} else {
+								res = append(res, o)
+							}
+						}
+						return res
+					}
+				}
+			}
+		}
+	}
 	if ret != nil && len(ret.Results) > 0 {
 		rts := resultTerms(x.Fn)
 		if len(ret.Results) == len(rts) {
@@ -1671,6 +1696,15 @@ func (b *Base) ForkErr(x *Exec, lhs []ast.Expr, errIdx int, s St, onOK, onErr fu
 		if t, k := b.Term(x, lhs[errIdx], s); k {
 			ok = b.Invalidate(ok, t).Set("n:"+t, "nil")
 			bad = b.Invalidate(bad, t).Set("n:"+t, "nonnil")
+		}
+	}
+	if len(lhs) == 0 && x.RetCall != nil {
+		// the call's results are the function's results
+		for i, t := range x.RetCall {
+			ok, bad = b.Invalidate(ok, t), b.Invalidate(bad, t)
+			if i == errIdx || (errIdx < 0 && i == len(x.RetCall)-1) {
+				ok, bad = ok.Set("n:"+t, "nil"), bad.Set("n:"+t, "nonnil")
+			}
 		}
 	}
 	if onOK != nil {
